@@ -10,6 +10,7 @@ from harness.c07_termination import _pad
 
 ALLOWED = allowed('C08')
 FREE = K - len(PREFIX)
+NSYM = vlib.env.part('nsym', False)     # request-n symbolic at full width (a few partitions); elsewhere only its sign matters
 
 
 def c_history(e1: int, e2: int, e3: int, e4: int, a1: bool, a2: bool, a3: bool, a4: bool, b1: bool, b2: bool,
@@ -27,7 +28,7 @@ def c_history(e1: int, e2: int, e3: int, e4: int, a1: bool, a2: bool, a3: bool, 
     if n <= 0 and ROLE not in ('rs_req', 'ch_req'):
         return ''            # a non-positive n only makes sense as the application's initial_request_n argument
     ev = list(PREFIX) + [conc(e, 0, NA - 1) for e in (e1, e2, e3, e4)[:FREE]]
-    n_eff = n
+    n_eff = n if NSYM else (5 if n > 0 else n)
     o = run_history(ev, _pad((a1, a2, a3, a4), len(ev)), _pad((b1, b2, b3, b4), len(ev)),
                     _pad((c1, c2, c3, c4), len(ev)), n_eff)
     devs = []
